@@ -234,7 +234,13 @@ fn main() {
     let mut run = Run::from_env("C07");
     if let Some(c) = run.replay_case() {
         let lens: Vec<usize> = c["lengths"].as_array().unwrap().iter().map(|x| x.as_u64().unwrap() as usize).collect();
-        check(&mut run, &lens, strategy_index(c["strategy"].as_str().unwrap()), c["seed"].as_u64().unwrap());
+        // a violated determinism clause may show only with some probability: repeat (16 times at most)
+        for _ in 0..16 {
+            check(&mut run, &lens, strategy_index(c["strategy"].as_str().unwrap()), c["seed"].as_u64().unwrap());
+            if run.num_violations() > 0 {
+                break;
+            }
+        }
         run.finish();
     }
     let max_sources = run.pick(3, 4);
